@@ -97,6 +97,19 @@ class Run:
         # 3. cases
         corpus = load_corpus(prop)
         gen = mod.gen_cases(self.rng, self.tier)
+        # modelled source that differs from the recorded fingerprint: widen the correspondence
+        changed_anchors = []
+        anchors = getattr(mod, "ANCHORS", [])
+        if anchors:
+            now = coqrun.fingerprints(anchors)
+            try:
+                rec = json.load(open(os.path.join(VERIF, "fingerprints.json"))).get(prop, {})
+            except FileNotFoundError:
+                rec = {}
+            changed_anchors = sorted(k for k, v in now.items() if rec.get(k) != v)
+            if changed_anchors and self.tier == "quick":
+                rngx = random.Random(self.seed * 31 + 5 ^ zlib.crc32(prop.encode()))
+                gen = gen + mod.gen_cases(rngx, "search")
         cases = corpus + gen
         dist = {}
         for c in cases:
@@ -193,6 +206,15 @@ class Run:
         for s, (c, o, f) in known_hits.items():
             print(f"KNOWN-FINDING: property={prop} {known_sigs[s].get('what', s)}")
 
+        # 6b. independent re-check of the proofs (thorough tier)
+        chk = None
+        if self.tier == "thorough" and proofs["ok"]:
+            chk = coqrun.coqchk(prop)
+            if not chk["ok"]:
+                path = self.write_replay("proof", dict(what="coqchk does not accept the development or reports axioms",
+                                                       failing=chk["summary"]))
+                violations.append((f"VIOLATION property={prop} replay={path} no-failing-input-found", path))
+
         # 7. evidence
         nontriv = set()
         for c, o, f in results:
@@ -213,6 +235,7 @@ class Run:
                 disagreements_checked=len(modelled), disagreements=len(mism),
                 oracle_failures=len(fails), known_findings_reproduced=sorted(known_hits),
                 generator_distribution=dist, corpus_cases=len(corpus),
+                modelled_source_changed=changed_anchors, coqchk=chk,
                 failing_input_search=search_stats,
                 samples=samples,
                 exhaustive=bool(getattr(mod, "EXHAUSTIVE", {}).get(self.tier, False)),
